@@ -30,6 +30,10 @@ CAUGHT = {
     "C19-m3": ["C19 quick"],
     "C20-m1": ["C20 quick (layered family; exact F-IMP-1 prediction does not mask it)"], "C20-m2": ["C20 quick"],
     "C20-m3": ["C20 quick (ignore_case variants)"],
+    "C06-m4": ["C06 quick (after alternatives inheriting rule-level priority/associativity were generated)"],
+    "C06-m5": ["C06 quick"], "C06-m6": ["C06 quick"],
+    "C08-m4": ["C08 quick (after the F-POS-4 attribution was narrowed to tokens of different extent; it reverts fix 062657e)"],
+    "C08-m5": ["C08 quick"], "C08-m6": ["C08 quick"],
     "C17-m1": ["C17 quick"], "C17-m2": ["C07 quick (scanner with consume_input=False); not C17 itself (its scope has no terminal priorities)"], "C17-m3": ["C17 quick"],
 }
 
